@@ -99,8 +99,15 @@ def check_case(case):
     from mistletoe import Document
     try:
         with renderers.make('Toc', {'depth': depth, 'omit_title': omit, 'filter_conds': conds}) as r:
-            if int(case.get('tape', '0')[:1] or '0', 16) % 2:
-                r.render(Document(OTHER_DOC))          # the renderer has been used before: the table is that of the last document
+            nib = int(case.get('tape', '0')[:1] or '0', 16)
+            if nib % 2:
+                # the renderer has been used before (another document with 1-4 headings, its table read): the table is that of the last document
+                r.render(Document(OTHER_DOCS[(nib // 2) % len(OTHER_DOCS)]))
+                if nib % 4 == 1:
+                    try:
+                        r.toc
+                    except IndexError:
+                        pass            # (that document had no qualifying heading: no representable table, see the assumptions)
             r.render(Document(text))
             toc = r.toc
             got = []
@@ -116,6 +123,7 @@ def check_case(case):
 
 
 OTHER_DOC = '# Earlier title\n\n## Earlier section\n\ntext\n\n### Earlier sub\n'
+OTHER_DOCS = [OTHER_DOC, '## One\n', '## One\n\n## Two\n', '# T\n\n## One\n\n### Two\n\n## Three\n']
 FILTER_WORDS = ['alpha', 'Intro', 'x', 'Part', 'API', 'notes']
 
 
